@@ -232,6 +232,18 @@ class _G:
                     "kwargs": {nm: self.node(d) for nm in self.draw(st.lists(st.sampled_from(["u", "v"]), max_size=2, unique=True))}}
         if k == "tmpl":
             return self.tmpl(depth)
+        if k == "map" and self.chance(0.35):
+            # the body picks a branch from the mapped key, and the branches need different options
+            key = self.pick(["K", "T"])
+            vals = self.draw(st.lists(st.sampled_from(U.HASHABLE_DISPATCH if key == "K" else U.THRESH_VALUES), min_size=2, max_size=3,
+                                      unique_by=lambda v: (type(v).__name__, v)))
+            lookup = [[v, self.opt(keys=U.FLAT + ["S.X", "R.U.V"]) if self.chance(0.8) else self.node(0)] for v in vals]
+            sw = {"k": "switch", "disp": key, "lookup": lookup}
+            if self.chance(0.4):
+                sw["default"] = self.node(0)
+            body = {"k": "tuple", "items": [sw, self.node(d - 1 if d > 0 else 0)]} if self.chance(0.4) else sw
+            how = self.pick((["list"] if self.p.get("picklable") else ["list", "values_list"]) + (["raw", "values_raw"] if lazy_ok else []))
+            return {"k": "map", "body": body, "iters": [[key, {"k": "val", "v": vals}]], "as": how}
         if k == "map":
             iters = []
             for key in self.draw(st.lists(st.sampled_from(["A", "B", "K", "S.X", "S.Y", "T"]), min_size=1, max_size=2, unique=True)):
@@ -246,7 +258,8 @@ class _G:
             how = self.pick((["list"] if self.p.get("picklable") else ["list", "values_list"]) + (["raw", "values_raw"] if lazy_ok else []))
             body = self.node(d)
             r = self.draw(st.sampled_from(range(10)))
-            const_iters = [(k, it) for k, it in iters if it["k"] == "val" and len(it["v"]) >= 2]
+            # (only keys whose values are hashable scalars may serve as a dispatch)
+            const_iters = [(k, it) for k, it in iters if it["k"] == "val" and len(it["v"]) >= 2 and k in ("K", "T")]
             if r <= 3 and const_iters:
                 # the body picks a branch from the mapped key, and the branches need different options
                 k, it = self.pick(const_iters)
